@@ -1747,6 +1747,23 @@ class SpaceUpdater(SharedSpaceOperations):
             if conflict:
                 raise NameError("name conflict: %s" % conflict)
 
+            # Check relative references beforehand, as failing in
+            # on_inherit leaves the members derived by then in sub spaces
+            sub = self._graph.to_space(desc)
+            seen = {k for k, r in sub.own_refs.items() if r.is_defined()}
+            for sname in mro[1:]:
+                for k, r in self._graph.to_space(sname).own_refs.items():
+                    if k in seen or r.is_derived():
+                        continue
+                    seen.add(k)
+                    mode = sub.own_refs[k].refmode if (
+                        k in sub.own_refs) else r.refmode
+                    if (mode == "relative" and r.has_interface() and
+                            not self.get_relative_interface(sub, r)[0]):
+                        raise ValueError(
+                            "Relative reference %s.%s out of scope" %
+                            (sub.get_fullname(), k))
+
         self._instructions.append(
             Instruction(self._update_derived_space, (node,)))
         for _,  v in nx.edge_dfs(self._graph, node):
